@@ -49,6 +49,7 @@ type Run struct {
 	stoppedFeeds []*Collector
 	cpSeen       map[int]uint64 // per collection: highest CAS its checkpointed dump runs delivered
 	heldIters    []heldIter     // query iterators left open by "hold" queries
+	heldReads    []heldRead     // byte slices returned by earlier reads, with a copy of what they held
 	SharedKeyOps int            // steps whose key existed in >= 2 collections in different states
 	IsoProbes    bool           // C11: compare query/view/ddoc probes of other collections after each step
 	probes       map[int]string
@@ -388,6 +389,7 @@ func (r *Run) Step(op Op) {
 	// read back
 	readH := (r.step + op.H + 1) % len(w.Handles)
 	post, cdevs := Observe(w.Coll(readH, op.C), op.Key, ki.XNameList())
+	r.hold("GetRaw", op.Key, "C01", post.Body)
 	for _, d := range cdevs {
 		d.Step = r.step
 		d.Msg = fmt.Sprintf("after %s: %s", op.K, d.Msg)
@@ -618,4 +620,29 @@ func opLabel(op Op) string {
 		}
 	}
 	return s
+}
+
+// heldRead: what a read returned belongs to the caller: a later call must not change it.
+type heldRead struct {
+	what, key, prop string
+	got, was        []byte
+}
+
+func (r *Run) hold(what, key, prop string, b []byte) {
+	if len(b) == 0 {
+		return
+	}
+	if len(r.heldReads) >= 6 {
+		r.heldReads = r.heldReads[1:]
+	}
+	r.heldReads = append(r.heldReads, heldRead{what: what, key: key, prop: prop, got: b, was: append([]byte{}, b...)})
+}
+
+func (r *Run) checkHeld() {
+	for i, h := range r.heldReads {
+		if !bytes.Equal(h.got, h.was) {
+			r.dev("read.unstable", []string{h.prop}, "the bytes %s(%q) returned were %q when it returned and are %q now: a later call changed a result the caller still holds", h.what, h.key, h.was, h.got)
+			r.heldReads[i].was = append([]byte{}, h.got...)
+		}
+	}
 }
